@@ -663,10 +663,15 @@ impl Generator {
     }
 
     fn r#swap(&mut self, link: &mut Link, col: &Column) -> Result<Column> {
-        let var1 = self.var.pop()?;
-        let var2 = self.var.pop()?;
+        let mut var1 = self.var.pop()?;
+        let mut var2 = self.var.pop()?;
         var1.test_for_built_in(false)?;
         var2.test_for_built_in(false)?;
+        // The first store must not change a subscript of the second:
+        // in SWAP I,A(I) the element is stored before I is.
+        if var1.arg_len.is_none() && var2.arg_len.is_some() {
+            std::mem::swap(&mut var1, &mut var2);
+        }
         var1.clone().push_as_expression(link)?;
         var2.clone().push_as_expression(link)?;
         link.push(Opcode::Swap)?;
